@@ -404,6 +404,85 @@ Proof.
   destruct tl; discriminate.
 Qed.
 
+(** * HTML is looked for before the first written byte, not on line 1 *)
+
+(** A line that writes nothing: blank, white space only, a comment, a title. *)
+Definition unwritten (l : bytes) : Prop := classify (trim_space l) = LSkip.
+
+Lemma skip_not_html t : classify t = LSkip -> is_html_line t = false.
+Proof.
+  destruct t as [|c r]; [reflexivity|]. unfold classify.
+  destruct ((c =? 35) || (c =? 33)) eqn:E.
+  - intros _. apply orb_true_iff in E. destruct E as [E|E]; apply N.eqb_eq in E; subst c; reflexivity.
+  - destruct (existsb likely_binary (c :: r)); discriminate.
+Qed.
+
+Lemma process_html_after_unwritten crc t rest : forall pre st,
+  Forall unwritten pre -> is_html_line (trim_space t) = true -> p_written st = 0 ->
+  exists st', process crc (pre ++ t :: rest) st = (st', Some EHtml) /\
+              p_written st' = 0 /\ p_lines st' = p_lines st /\ p_count st' = p_count st.
+Proof.
+  induction pre as [|l pre IH]; intros st Hp Ht W; cbn [app process].
+  - rewrite W, Ht. cbn. eauto.
+  - inversion Hp as [|? ? Hl Hp']; subst. unfold unwritten in Hl.
+    rewrite W, (skip_not_html _ Hl). cbn [N.eqb andb].
+    set (st1 := if p_title_found st then st else _).
+    assert (E : p_written st1 = 0 /\ p_lines st1 = p_lines st /\ p_count st1 = p_count st).
+    { unfold st1. destruct (p_title_found st); auto. destruct (title_of (trim_space l)); auto. }
+    rewrite Hl. destruct E as (E1 & E2 & E3). destruct (IH st1 Hp' Ht E1) as (st' & P & A & B & C).
+    exists st'. repeat split; auto; congruence.
+Qed.
+
+Lemma scan_lines_then rest h : forall pre,
+  Forall (fun l => ~ In 10 l /\ lenN l < max_token) (pre ++ [h]) ->
+  scan (flat_map (fun l => l ++ [10]) pre ++ h ++ 10 :: rest) [] 0
+  = let '(ts, e) := scan rest [] 0 in (map drop_cr pre ++ drop_cr h :: ts, e).
+Proof.
+  induction pre as [|l pre IH]; intros H; cbn [flat_map app map].
+  - inversion H as [|? ? [H1 H2] _]; subst.
+    pose proof (scan_line h [] rest H1) as SL. change (lenN []) with 0 in SL. cbn [rev app] in SL.
+    now rewrite SL.
+  - inversion H as [|? ? [H1 H2] H']; subst. rewrite <- !app_assoc. cbn [app].
+    pose proof (scan_line l [] (flat_map (fun l => l ++ [10]) pre ++ h ++ 10 :: rest) H1) as SL.
+    change (lenN []) with 0 in SL. cbn [rev app] in SL. rewrite SL by exact H2.
+    rewrite IH by exact H'. destruct (scan rest [] 0). reflexivity.
+Qed.
+
+(** Whatever lines that write nothing precede it (blank, white space only,
+    comments, a title, with \n or \r\n endings) and whatever follows: a line
+    starting, after white space, with <html or <!doctype in any case makes the
+    parse fail with the HTML error, and nothing has been written. *)
+Theorem parse_html_after_unwritten crc pre h rest re :
+  Forall (fun l => ~ In 10 l /\ lenN l < max_token) (pre ++ [h]) ->
+  Forall (fun l => unwritten (drop_cr l)) pre ->
+  is_html_line (trim_space (drop_cr h)) = true ->
+  exists st, parse crc (flat_map (fun l => l ++ [10]) pre ++ h ++ 10 :: rest) re = (st, Some EHtml) /\
+             p_written st = 0 /\ output st = [].
+Proof.
+  intros Hs Hp Hh. unfold parse. rewrite scan_lines_then by exact Hs.
+  destruct (scan rest [] 0) as [ts e].
+  destruct (process_html_after_unwritten crc (drop_cr h) ts (map drop_cr pre) p_init) as (st & P & W & L & _); auto.
+  { apply Forall_map. exact Hp. }
+  rewrite P. exists st. repeat split; auto. unfold output. rewrite L. reflexivity.
+Qed.
+
+(** Example: CRLF blank line, comment, white-space-only line, title, then an
+    indented upper-case doctype. *)
+Example html_after_unwritten_example :
+  let pre := [[13]; [35; 32; 120]; [32; 9; 32]; [33; 32; 84; 105; 116; 108; 101; 58; 32; 80; 13]] in
+  let h := [32; 60; 33; 68; 79; 67; 84; 89; 80; 69; 32; 104; 116; 109; 108; 62; 13] in
+  Forall (fun l => ~ In 10 l /\ lenN l < max_token) (pre ++ [h]) /\
+  Forall (fun l => unwritten (drop_cr l)) pre /\
+  is_html_line (trim_space (drop_cr h)) = true /\
+  snd (parse crc32_update (flat_map (fun l => l ++ [10]) pre ++ h ++ 10 :: [124; 124; 120; 94; 10]) false) = Some EHtml.
+Proof.
+  cbv zeta. split; [|split; [|split]].
+  - repeat constructor; try (vm_compute; reflexivity); cbn; intuition discriminate.
+  - repeat constructor; vm_compute; reflexivity.
+  - vm_compute. reflexivity.
+  - vm_compute. reflexivity.
+Qed.
+
 (** * Non-vacuity *)
 Module Examples.
   (* " ! Title: T \r\n# c\n\n  ||x^ \t\r\n\xc2\xa0a\rb\xe3\x80\x80\nlast" *)
